@@ -406,6 +406,9 @@ func (s *Server) Snapshot() *Snapshot {
 	return s.snapshotLocked()
 }
 
+// SnapshotLocked is Snapshot for observer callbacks (store lock already held).
+func (s *Server) SnapshotLocked() *Snapshot { return s.snapshotLocked() }
+
 func (s *Server) snapshotLocked() *Snapshot {
 	sn := &Snapshot{tables: map[string]*Table{}, nextRow: s.nextRow}
 	for n, t := range s.tables {
